@@ -29,6 +29,7 @@ type State struct {
 	closures map[types.Object]*Closure
 	defers   []*deferred
 	dead     bool
+	epoch    string // suffix of the initial heap symbols ("" = @0); lemmas use a second epoch for the old state
 }
 
 func newState() *State {
@@ -36,7 +37,7 @@ func newState() *State {
 }
 
 func (s *State) clone() *State {
-	n := &State{pc: s.pc, vars: make(map[types.Object]*Var, len(s.vars)), heap: make(map[string]*Term, len(s.heap)), closures: make(map[types.Object]*Closure, len(s.closures)), dead: s.dead, defers: s.defers}
+	n := &State{pc: s.pc, vars: make(map[types.Object]*Var, len(s.vars)), heap: make(map[string]*Term, len(s.heap)), closures: make(map[types.Object]*Closure, len(s.closures)), dead: s.dead, defers: s.defers, epoch: s.epoch}
 	for k, v := range s.vars {
 		cp := *v
 		n.vars[k] = &cp
@@ -52,14 +53,19 @@ func (s *State) clone() *State {
 
 // heap arrays -------------------------------------------------------------
 
-func (c *Ctx) heapInit(name string) *Term {
+func (c *Ctx) heapInit(name string) *Term { return c.heapInitE(name, "") }
+
+func (c *Ctx) heapInitE(name, epoch string) *Term {
 	s, ok := c.heapSort[name]
 	if !ok {
 		panic("heap array without sort: " + name)
 	}
-	sym := qsym(name + "@0")
-	if !c.declared["heap:"+name] {
-		c.declared["heap:"+name] = true
+	if epoch == "" {
+		epoch = "0"
+	}
+	sym := qsym(name + "@" + epoch)
+	if !c.declared["heap:"+name+"@"+epoch] {
+		c.declared["heap:"+name+"@"+epoch] = true
 		c.decls = append(c.decls, fmt.Sprintf("(declare-const %s %s)", sym, s))
 	}
 	return Sym(sym, s)
@@ -76,7 +82,7 @@ func (c *Ctx) heapGet(st *State, name string, s Sort) *Term {
 	if t, ok := st.heap[name]; ok {
 		return t
 	}
-	return c.heapInit(name)
+	return c.heapInitE(name, st.epoch)
 }
 
 func (c *Ctx) heapSet(st *State, name string, t *Term) {
@@ -127,6 +133,7 @@ func (c *Ctx) merge(states ...*State) *State {
 
 func (c *Ctx) merge2(a, b *State) *State {
 	n := newState()
+	n.epoch = a.epoch
 	cond := a.pc // in join, value = ite(a.pc, a.val, b.val)
 	n.pc = Or(a.pc, b.pc)
 	if n.pc.Op == "or" && c.inQuant == 0 {
@@ -167,10 +174,10 @@ func (c *Ctx) merge2(a, b *State) *State {
 		ha, oka := a.heap[k]
 		hb, okb := b.heap[k]
 		if !oka {
-			ha = c.heapInit(k)
+			ha = c.heapInitE(k, a.epoch)
 		}
 		if !okb {
-			hb = c.heapInit(k)
+			hb = c.heapInitE(k, b.epoch)
 		}
 		if same(ha, hb) {
 			n.heap[k] = ha
